@@ -129,6 +129,16 @@ func C02(tier rt.Tier) int {
 			}
 			return tab.check(w)
 		})
+		// the package's debug switch must not change what is computed (it only adds logging)
+		util.DebugMPTNode = true
+		runAlphabet(rep, alphabet{name: "mem-v7-debug-switch-on", kind: Mem, paths: p2[:9], vals: []string{"x"}, depth: 3, version: 7}, time.Now().Add(per), func(w *World) string {
+			if f := canonicalOracle(w); f != "" {
+				return f
+			}
+			return tab.check(w)
+		})
+		runAlphabet(rep, alphabet{name: "level-pnodedb-debug-switch-on", kind: LevelP, paths: p2[:5], vals: []string{"x"}, flush: true, depth: 3, version: 7}, time.Now().Add(per), canonicalOracle)
+		util.DebugMPTNode = false
 		twoLevelSweep(rep, "canonical-root", Mem, 1, canonicalOracle)
 		prefixSweep(rep, "canonical-root", Mem, 1, canonicalOracle)
 		byteSweep(rep, "canonical-root", []StoreKind{Mem}, 1, canonicalOracle)
